@@ -394,7 +394,7 @@ pub fn run(ctx: &mut Ctx) {
     if let Ok(b) = vocab::vbpe_noncanon(1024) {
         multi.push(b);
     }
-    let n_cases = ctx.pick(2400, 700000);
+    let n_cases = ctx.pick(12000, 700000);
     for idx in 0..n_cases {
         if !ctx.mine(idx) {
             continue;
